@@ -61,9 +61,9 @@ P['C05']={
   H+"retrieveTokens":["inv","view"],
   H+"Process":["inv","logout","deny_content"],
   A+"getCookieName":[], A+"getCookieDirectives":[], A+"generateSetCookieHeader":[], "http.EncodeCookieHeader":[],
-  A+"setSetCookieHeader":[],
+  A+"setSetCookieHeader":[], "http.DecodeCookiesHeader":[], A+"getSessionIDFromCookie":[],
  },
- "required":[H+"redirectToIDP:post:new_sid", H+"redirectToIDP:post:old_sid", A+"generateSetCookieHeader:post:cookie", A+"getCookieName:post:host_prefix"],
+ "required":["http.DecodeCookiesHeader:post:decoded", H+"redirectToIDP:post:new_sid", H+"redirectToIDP:post:old_sid", A+"generateSetCookieHeader:post:cookie", A+"getCookieName:post:host_prefix"],
  "assumptions":["A-FRESH: a freshly drawn session id differs from the id the client presented (premise examined by C06)","A-COOKIE-TOKEN: the configured cookie-name prefix contains only RFC 6265 token characters (not checked by the loader)"],
  "note":"StoreInv (everything a store holds is held under an issued id) is preserved by every handler function"}
 P['C09']={
@@ -194,7 +194,7 @@ P['C03']={
   H+"retrieveTokens":["login_expiry","redirect_back","bind","consumed","count","view"],
   H+"redirectToIDP":["redirect","login_state","location","new_sid"],
   H+"Process":["ok_justified","ok_forwards","noerr","status"],
-  H+"areRequiredTokensExpired":[],
+  H+"areRequiredTokensExpired":[], "http.DecodeCookiesHeader":[], A+"getSessionIDFromCookie":[],
   H+"Process@live":[], H+"retrieveTokens@live":[], H+"redirectToIDP@live":[], H+"isValidIDToken@live":[], A+"performIDPRequest@live":[], H+"areRequiredTokensExpired@live":[],
  },
  "variant":"live",
